@@ -2734,6 +2734,28 @@ func (d *htDirector) onTxRejected(br *rig.BlockRecord, tx *rig.TxRecord, tag *ht
 			// is in flight); anything else - an abort inside the handler included - keeps funds from the designated recipient
 			lg := tx.Result.Log
 			excused := c.typ() != "plain" && (strings.Contains(lg, "asset not found") || strings.Contains(lg, "over limit") || strings.Contains(lg, "supply limit") || strings.Contains(lg, "not active"))
+			// "over limit" is a reason only when the figures the chain itself kept before this transaction say so
+			if excused && pre != nil && strings.Contains(lg, "over limit") && len(c.Amount) == 1 {
+				coin := c.Amount[0]
+				if sup, ok := pre.Sup[coin.Denom]; ok {
+					for _, ap := range pre.Params.AssetParams {
+						if ap.Denom != coin.Denom {
+							continue
+						}
+						run.Eval(1)
+						overTotal := sup.CurrentSupply.Amount.Add(coin.Amount).GT(ap.SupplyLimit.Limit)
+						overPeriod := ap.SupplyLimit.TimeLimited && sup.TimeLimitedCurrentSupply.Amount.Add(coin.Amount).GT(ap.SupplyLimit.TimeBasedLimit)
+						period := strings.Contains(lg, "for current time period")
+						if (period && !overPeriod) || (!period && !overTotal) {
+							run.Violation(d.mode+":htlc:claim:preimage-of-open-contract-rejected-as-over-a-limit-it-is-within", map[string]any{"height": br.Height, "id": c.ID, "type": c.typ(), "amount": coin.String(), "supply": fmt.Sprintf("%+v", sup), "limit": fmt.Sprintf("%+v", ap.SupplyLimit), "log": logBrief(tx)},
+								"claim of open %s contract %s (amount %s) with the preimage of its hash lock was rejected at height %d as over a supply limit, but the recorded supply (current %s, in this period %s) plus the amount is within the limits (total %s, period %s, time-limited %v): %s",
+								c.typ(), htShort(c.ID), coin, br.Height, sup.CurrentSupply.Amount, sup.TimeLimitedCurrentSupply.Amount, ap.SupplyLimit.Limit, ap.SupplyLimit.TimeBasedLimit, ap.SupplyLimit.TimeLimited, logBrief(tx))
+							return
+						}
+						run.Count("valid-claim-rejected-over-a-limit-confirmed-by-the-recorded-supply", 1)
+					}
+				}
+			}
 			if !excused {
 				run.Eval(1)
 				run.Violation(d.mode+":htlc:claim:preimage-of-open-contract-rejected:"+htErrClass(lg), map[string]any{"height": br.Height, "id": c.ID, "type": c.typ(), "amount": c.Amount.String(), "log": logBrief(tx)},
